@@ -72,9 +72,11 @@ def judge(ctx, root, case):
     from gemato.recursiveloader import ManifestRecursiveLoader
     sign, orig_signed = case['sign'], case['orig_signed']
     keyid, hk = case['keyid'], case['home']
+    if hk == 'killed':
+        orig_signed = False     # (the stand-in could not verify anything)
     top_name = case.get('top', 'Manifest')
     top = os.path.join(root, top_name)
-    h = home(hk)
+    h = home('secret' if hk == 'killed' else hk)
     signer = home('secret')
     if orig_signed:
         with open(top, 'rb') as f:
@@ -93,6 +95,17 @@ def judge(ctx, root, case):
              klass=expect)
     with open(top, 'rb') as f:
         top_before = f.read()
+    import gemato.openpgp as go
+    real_gnupg = go.GNUPG
+    if hk == 'killed':
+        # a gpg that dies from a signal after emitting part of its output
+        script = os.path.join(os.path.dirname(root), 'gpg-killed.sh')
+        with open(script, 'w') as f:
+            f.write('#!/bin/sh\ncat >/dev/null\n'
+                    'echo "-----BEGIN PGP SIGNED MESSAGE-----"\necho "Hash: SHA256"\n'
+                    'echo\necho "DATA partial 0"\nkill -9 $$\n')
+        os.chmod(script, 0o755)
+        go.GNUPG = script
     os.environ['GNUPGHOME'] = h.dir
     kid = {'default': None, 'explicit': keys.KEY_ID, 'wrong': '0xDEADBEEFDEADBEEF'}[keyid]
     outcome = None
@@ -140,6 +153,7 @@ def judge(ctx, root, case):
         return
     finally:
         os.environ.pop('GNUPGHOME', None)
+        go.GNUPG = real_gnupg
     # ---- what is on disk now
     tops = [n for n in ['Manifest'] + ['Manifest.' + s for s in mtext.SUFFIXES]
             if os.path.exists(os.path.join(root, n))]
@@ -262,11 +276,32 @@ def gen_case(rng, root):
         'sign': rng.choice([None, None, True, False]),
         'orig_signed': rng.random() < 0.5,
         'keyid': rng.choice(['default', 'default', 'explicit', 'wrong']),
-        'home': rng.choice(['secret', 'secret', 'secret', 'public']),
+        'home': rng.choice(['secret', 'secret', 'secret', 'public', 'killed']),
         'api': rng.choice(['lib', 'lib', 'cli']),
         'force': rng.random() < 0.5,
         'watermark': rng.choice([None, None, 0, 10**6]),
     })
+    subs = [m for m, md in layout['mans'].items() if md['parent'] is not None]
+    if subs and rng.random() < 0.25:
+        # a sub-Manifest that carries a valid cleartext signature of its own on disk
+        # (a formerly stand-alone signed tree nested into this one)
+        sm = rng.choice(sorted(subs))
+        fmt = layout['mans'][sm]['fmt']
+        with open(os.path.join(root, sm), 'rb') as f:
+            body = mtext.decompress_named(os.path.basename(sm), f.read()).decode('utf8')
+        signed = home('secret').clearsign(body)
+        with open(os.path.join(root, sm), 'wb') as f:
+            f.write(mtext.compress(fmt, signed.encode('utf8')))
+        anc = glayout.chain_to_top(layout, sm)[1:]
+        # the parents must record the signed file
+        for m in anc:
+            with open(os.path.join(root, m), 'wb') as f:
+                f.write(glayout.render_one(root, layout, m))
+        case['manifests'] = glayout.manifest_nodes(root, layout)
+        case['signed_sub'] = sm
+        case['force'] = True
+        case['home'] = 'secret'
+        case['keyid'] = rng.choice(['default', 'explicit'])
     if rng.random() < 0.15:
         # a compressed top-level Manifest (only reachable through the library)
         fmt = rng.choice(['gz', 'xz'])
